@@ -82,7 +82,9 @@ def _stream_param(fi: FuncInfo, want: str, pos: int) -> Optional[str]:
 
 def _wordset(repo, ci, fi, stream_param, record, self_is_stream=False):
     t = Tracer(repo, ci, record)
-    ws = words(t.run(fi, stream_param, self_is_stream))
+    # a path that puts the stream position back where it started (peek) consumes nothing and has no
+    # counterpart on the writing side
+    ws = words([x for x in t.run(fi, stream_param, self_is_stream) if not x.rewound])
     if record == "inner":
         # a path that never builds a window has no trace on the window stream (sentinel short-cuts)
         ws = {w for w in ws if opens_window(w)}
@@ -729,12 +731,139 @@ def r5(ctx):
                all_ok, f.where, "trailing bytes of a length-delimited window would be silently dropped")
 
 
+# ----------------------------------------------------------------------------- R6
+
+def r6(ctx):
+    repo = ctx.repo
+    ctx.rule("C08.R6", "deferred decoding takes a snapshot: a closure/lambda that a serialize/deserialize path "
+                       "returns or hands to another callable (lazy proxy) never refers to the reader/writer object - "
+                       "whatever it needs (endianness, pod mode, bytes) is captured into locals before it is created")
+    seen = 0
+    jobs = [(label, ci, s, d, sp, dp) for label, ci, s, d, sp, dp in discover_pairs(ctx)]
+    for label, ci, s, d, sp, dp in jobs:
+        for fi, prm in ((s, sp), (d, dp)):
+            t = Tracer(repo, ci, None)
+            t.run(fi, prm)
+            by_site: Dict[Tuple[str, str], Set[str]] = {}
+            for name, where, refs in t.deferred:
+                by_site.setdefault((name, where), set()).update(refs)
+            for (name, where), refs in sorted(by_site.items()):
+                seen += 1
+                ctx.ob("C08.R6", f"{label}.{fi.name}: deferred {name} does not touch the stream object", not refs, where,
+                       f"deferred code reads {sorted(refs)} when it is eventually run: byte order / pod mode / position "
+                       f"of the stream may have changed since the field was read")
+    ctx.floor("C08.R6", "deferred closures on (de)serialize paths", seen, 1)
+
+
+# ----------------------------------------------------------------------------- R7
+
+def _value_param(repo, ci: ClassInfo, fi: FuncInfo, ser_base, sub_base) -> Optional[str]:
+    ps = _params(fi)
+    mro = repo.mro(ci)
+    if any(m == ser_base for m in mro):
+        return ps[0] if ps else None
+    if any(m == sub_base for m in mro):
+        return ps[1] if len(ps) > 1 else None
+    return None
+
+
+def _flag_of(e) -> Optional[str]:
+    p = ap(e)
+    if p and p.count(".") == 1 and p.split(".")[0] in ("self", "cls"):
+        return p.split(".")[1]
+    return None
+
+
+def _conjuncts(test) -> List[ast.AST]:
+    if isinstance(test, ast.BoolOp) and isinstance(test.op, ast.And):
+        out = []
+        for v in test.values:
+            out.extend(_conjuncts(v))
+        return out
+    return [test]
+
+
+def _reader_sentinel_flags(fns: List[FuncInfo]) -> Set[str]:
+    """Flags (self.X / cls.X) under which some deserialize path returns the None sentinel."""
+    out: Set[str] = set()
+    for f in fns:
+        for n in walk(f.node):
+            if isinstance(n, ast.Return) and (n.value is None or (isinstance(n.value, ast.Constant) and n.value.value is None)):
+                for e, pol in facts(n, f.node):
+                    fl = _flag_of(e)
+                    if fl and pol:
+                        out.add(fl)
+    return out
+
+
+def r7(ctx):
+    repo = ctx.repo
+    from .common import class_methods_reachable
+    ctx.rule("C08.R7", "sentinel symmetry: where the reader maps a short/empty window to None under a flag and the "
+                       "writer forwards the value unchanged to an arbitrary child spec, the writer's short-cut under "
+                       "that flag tests the value with `is None` only (a truthiness test would swallow 0, '', [] ...)")
+    ser_base = repo.cls("SerializableBase", SER)
+    sub_base = repo.cls("BaseSubfieldSerializer", SER)
+    n = 0
+    for name in sorted(repo.classes):
+        for ci in repo.classes[name]:
+            if ci.module.rel not in PAIR_MODULES:
+                continue
+            if "serialize" not in ci.methods and "deserialize" not in ci.methods:
+                continue
+            s, d = repo.lookup_method(ci, "serialize"), repo.lookup_method(ci, "deserialize")
+            if s is None or d is None or is_abstract(s) or is_abstract(d):
+                continue
+            vp = _value_param(repo, ci, s, ser_base, sub_base)
+            if vp is None:
+                continue
+            flags = _reader_sentinel_flags(class_methods_reachable(repo, d, depth=3))
+            if not flags:
+                continue
+            # does the writer hand the value on, whole, as the value of a spec write?
+            forwards = []
+            t = Tracer(repo, ci, None)
+
+            def hook(tok, node, st, fr, sid, t=t, forwards=forwards):
+                if tok[0] != "E" or not isinstance(node, ast.Call):
+                    return
+                attr = node.func.attr if isinstance(node.func, ast.Attribute) else None
+                arg = node.args[1] if attr == "write" and len(node.args) > 1 else \
+                    node.args[0] if attr == "serialize" and node.args else None
+                if arg is not None and t.sym(arg, st, fr) == "<value>":
+                    forwards.append(node)
+            t.event_hooks.append(hook)
+            is_stream = any(m == ser_base for m in repo.mro(ci))
+            t.run(s, _stream_param(s, "writer", 1) if is_stream else None, value_param=vp)
+            if not forwards:
+                continue
+            for n_ in walk(s.node):
+                if not isinstance(n_, (ast.If, ast.IfExp)):
+                    continue
+                conj = _conjuncts(n_.test)
+                flagged = {_flag_of(c) for c in conj} | {_flag_of(e) for e, pol in facts(n_, s.node) if pol}
+                hit = sorted(f for f in flagged if f in flags)
+                if not hit:
+                    continue
+                about_value = [c for c in conj if vp in {x.id for x in ast.walk(c) if isinstance(x, ast.Name)}]
+                if not about_value:
+                    continue
+                n += 1
+                ok = all((is_none_test(c) or (None,))[0] == vp for c in about_value)
+                ctx.ob("C08.R7", f"{_label(ci)}.serialize: short-cut under {'/'.join(hit)} tests the value with `is None`",
+                       ok, ctx.w(s, n_), f"test {norm(n_.test)}: a falsy in-domain value (0, '', []) with a non-empty "
+                                         f"encoding would be written as the None sentinel and read back as None")
+    ctx.floor("C08.R7", "flagged None short-cuts in writers that forward the value", n, 2)
+
+
 def run(ctx):
     r1(ctx)
     r2(ctx)
     r3(ctx)
     r4(ctx)
     r5(ctx)
+    r6(ctx)
+    r7(ctx)
     ctx.assume("read(write(v)) == v over generated spec trees and values is not decided statically; branch "
                "conditions of the two directions are not compared (a flipped test is a value-level fault)")
     ctx.assume("comprehension / generator events are placed where the comprehension is written; closures returned "
